@@ -12,12 +12,13 @@
     `exit_succeeds` / `claim_succeeds`: in every reachable state a holder's `exitFarm` / `claimRewards`
     can only fail INSIDE the weekly-rewards module (boosted claim, energy clearing) — every other
     guard and checked subtraction of the endpoints is discharged from the invariants.
-    IN FULL (`no_underflow_full`): stated, not proved.  The per-week subtraction
-    `remainingBoostedRewardsToDistribute(week) −= reward` of `get_user_rewards_for_week` COULD underflow
-    in a reachable state before the repair of finding F6 (late first `setBoostedYieldsFactors`;
-    corpus/farm/f6_late_config_underflow.ops).  The repaired `claim_boosted_yields_rewards` advances
-    the claim progress also when no config exists; `f6_history_repaired` shows the same history now
-    succeeds (and it replays clean on the real repaired contracts).
+    IN FULL (`no_underflow_full`): proved in Props/C05Budget.lean for every history whose
+    `setBoostedYieldsFactors` calls install factors with `cE + cF ≠ 0` (`no_underflow_full_good_holds`);
+    false without that hypothesis (division by `cE + cF = 0`, owner misconfiguration).  Finding F6 — the
+    per-week subtraction `remainingBoostedRewardsToDistribute(week) −= reward` underflowing after a late
+    first `setBoostedYieldsFactors` (corpus/farm/f6_late_config_underflow.ops) — is repaired:
+    `claim_boosted_yields_rewards` advances the claim progress also when no config exists;
+    `f6_history_repaired` shows the same history now succeeds (and it replays clean on the real contracts).
 
   The hypothesis under which the weekly subtraction is safe is `WeekBudget` (Lemmas/FarmWeekSafe.lean):
   `weekly_sub_safe_under_budget`, `week_budget_init_mono`; its energy half holds in every reachable
@@ -236,13 +237,15 @@ example :
 
 /-- the full clause: in every reachable state of an active farm, whoever holds (part of) a position
     can exit with it — no internal counter stands in the way.
-    STATUS: stated, NOT proved in full.  Before the repair of F6 it was false
-    (`¬ no_underflow_full` was a theorem here, by `decide` on `cxOps`).  With the repair the
-    counter-example is gone (`f6_history_repaired`, `no_underflow_full_on_f6`), every reserve-side
-    counter is proved safe (above), `exit_succeeds` reduces the clause to the two calls into the
-    weekly-rewards module, and the week budget that makes the per-week subtraction safe is proved
-    in its energy half (`week_budget_energy_half`) and its position half (Props/C05Budget.lean);
-    what is still missing for the full clause is listed in notes/f6fix.md. -/
+    STATUS.  Before the repair of F6 it was false (`¬ no_underflow_full` was a theorem here, by `decide`
+    on `cxOps`); with the repair that counter-example is gone (`f6_history_repaired`,
+    `no_underflow_full_on_f6`).  Props/C05Budget.lean now PROVES the clause for every history in which
+    every `setBoostedYieldsFactors` installs factors with `cE + cF ≠ 0`
+    (`C05Budget.no_underflow_full_good_holds`, from `exit_always_succeeds`: reserve side here, week budget
+    with payments, liveness of the weekly module), and shows that this hypothesis is needed: as literally
+    stated below — for ALL histories — the clause is false, because the owner can install
+    `cE = cF = 0` and `get_user_rewards_for_week` then divides by zero
+    (`C05Budget.no_underflow_full_needs_factor_validation`; same on the real contracts). -/
 def no_underflow_full : Prop :=
   ∀ (kind : Kind) (same : Bool) (dsc pb : Nat) (produce : Bool) (users : List Nat) (e0 : Nat)
     (ops : List Op), users.Nodup → dsc ≠ 0 →
